@@ -640,6 +640,12 @@ def run_two_flights(job):
             continue
         o = p.result
         kind = ('first ok' if o['first'][0] is not None else 'first rejected') + ', ' + ('second ok' if o['shared'][0] is not None else f"second {type(o['shared'][1]).__name__}")
+        e_fresh = o['fresh'][1]
+        if isinstance(e_fresh, (AttributeError, NameError, TypeError, KeyError, IndexError)):
+            # the flight on a brand-new builder ended in an internal error: the stubs do not offer what the code under
+            # analysis uses.  Both builders failing alike would compare equal - report it instead of passing.
+            out['violations'].append(dict(obligation='harness', detail=f'flight on a fresh builder raised {e_fresh!r}: the mission/model stubs are incomplete for this tree', values={}, tags={}))
+            continue
         out['outcomes'][kind] = out['outcomes'].get(kind, 0) + 1
         groups = {}
         for oid, detail, val in two_flights_obligations(o):
